@@ -131,7 +131,7 @@ def sample_names(beh: dict[str, list[str]], seed: int, per_group=2, per_feature=
             pick.update(rng.sample(ns, min(per_feature, len(ns))))
     comp = [n for n in names if len(beh[n]) > 1]
     pick.update(rng.sample(comp, min(4, len(comp))))
-    for must in ("A4_tlbmatch", "L2_loadrb_pci", "A2_addi", "J2_jump", "S2_storerd_io"):
+    for must in ("A4_tlbmatch", "L2_loadrb_pci", "A2_addi", "J2_jump", "S2_storerd_io", "M4_pmpyw"):
         if must in beh:
             pick.add(must)
     # every rare construct: each token (identifier, compound operator) that at most 8 behaviours use is covered by at
